@@ -1,7 +1,17 @@
-"""Fingerprints of the TaffyTree structural methods that coq/Model/Tree.v transcribes by hand
-(src/tree/taffy_tree.rs).  Nothing is translated here: the model is tied to the code by the correspondence
-check of C14; a changed fingerprint only escalates that check to its thorough budget.  The generated file
-records which methods were found (the translator refuses if one of them disappears)."""
+"""TaffyTree structural methods (src/tree/taffy_tree.rs).
+
+Gen/TreeMethodsGen.v: fingerprints of the methods that coq/Model/Tree.v transcribes by hand (a changed fingerprint
+escalates the correspondence check of C14 to its thorough budget; the translator refuses if a method disappears).
+
+Gen/TreeBodiesGen.v: the BODIES of the structural methods named in BODIES below, translated statement by statement
+into the small imperative target language of coq/Model/TreeImp.v (`st_set_parent`, `st_push_child`, `st_insert_child`,
+`st_vec_remove`, `st_vec_replace`, `st_vec_drain`, `st_for`, `st_mark_dirty`, ...), the whole `tree` state threaded in
+source order.  Proofs/TreeBodiesProofs.v proves each `gen_<method>` equal to the hand-written `Tree.<method>`, so the C14
+theorems are statements about what the source says now.  Every statement form is matched explicitly; anything else
+raises Refuse (then the committed snapshot of the pinned tree is installed, see lib/common.py FALLBACK_TARGETS).
+`mark_dirty(x)?` is recognised (st_mark_dirty), never dropped.  Reductions shared with Model/Tree.v: NodeId/DefaultKey
+conversions (`into`, `NodeId::from`, `*x`, `&x`) are the identity; `usize` is N; the generic `range: R` of
+remove_children_range is a half-open `lo..hi`; `NodeData::new(style)` is `has_context = false`."""
 from rustparse import *
 
 SRC = 'src/tree/taffy_tree.rs'
@@ -51,4 +61,452 @@ def generate(repo):
     return '\n'.join(out) + '\n', fps
 
 
-TARGETS = {'TreeMethodsGen.v': generate}
+
+# ----------------------------------------------------------------------------- bodies -> Gen/TreeBodiesGen.v
+
+# method -> (kind, expected return type text).  kind 'mut': &mut self, result `res (tree * ret)`;
+# 'q_ret' / 'q_usize' / 'q_opt' / 'q_vec': &self queries with result `res ret` / `res N` / `res (option key)` / `res (list key)`
+BODIES = [
+    ('child_count', 'q_usize', '-> usize'),
+    ('child_at_index', 'q_ret', '-> TaffyResult < NodeId >'),
+    ('parent', 'q_opt', '-> Option < NodeId >'),
+    ('children', 'q_vec', '-> TaffyResult < Vec < NodeId >>'),
+    ('add_child', 'mut', '-> TaffyResult < ( ) >'),
+    ('insert_child_at_index', 'mut', '-> TaffyResult < ( ) >'),
+    ('remove_child_at_index', 'mut', '-> TaffyResult < NodeId >'),
+    ('remove_child', 'mut', '-> TaffyResult < NodeId >'),
+    ('replace_child_at_index', 'mut', '-> TaffyResult < NodeId >'),
+    ('remove_children_range', 'mut', '-> TaffyResult < ( ) > where R : core :: ops :: RangeBounds < usize > ,'),
+    ('set_children', 'mut', '-> TaffyResult < ( ) >'),
+    ('remove', 'mut', '-> TaffyResult < NodeId >'),
+    ('new_leaf', 'mut', '-> TaffyResult < NodeId >'),
+    ('new_with_children', 'mut', '-> TaffyResult < NodeId >'),
+]
+RESULT_TYPE = {'mut': 'res (tree * ret)', 'q_ret': 'res ret', 'q_usize': 'res N', 'q_opt': 'res (option key)',
+               'q_vec': 'res (list key)'}
+PARAM_TYPES = {'NodeId': ('key', 'key'), 'usize': ('N', 'N'), '& [ NodeId ]': ('vec', 'list key'), 'Style': ('style', None),
+               'R': ('range', None)}
+COQ_TYPE = {'key': 'key', 'N': 'N', 'vec': 'list key'}
+
+
+def fn_signature(toks, name, start=0):
+    """(self_kind, [(name, type_text)], return_text) of the first `fn name` after start"""
+    i = start
+    while i < len(toks) - 1 and not (toks[i] == ('id', 'fn') and toks[i + 1] == ('id', name)):
+        i += 1
+    if i >= len(toks) - 1:
+        raise Refuse('fn %s not found' % name)
+    j = i + 2
+    if toks[j][1] == '<':          # generics: `<R>` only
+        if [t[1] for t in toks[j:j + 3]] != ['<', 'R', '>']:
+            raise Refuse('fn %s: unexpected generics' % name)
+        j += 3
+    k = match_brace(toks, j)
+    params, cur, depth = [], [], 0
+    for t in toks[j + 1:k]:
+        if t[1] in '<([':
+            depth += 1
+        elif t[1] in '>)]':
+            depth -= 1
+        if t[1] == ',' and depth == 0:
+            params.append(cur)
+            cur = []
+        else:
+            cur.append(t)
+    if cur:
+        params.append(cur)
+    b = k + 1
+    while toks[b][1] != '{':
+        b += 1
+    ret = norm_tokens(toks[k + 1:b])
+    selfk = norm_tokens(params[0])
+    if selfk not in ('& self', '& mut self'):
+        raise Refuse('fn %s: receiver %r' % (name, selfk))
+    ps = []
+    for p in params[1:]:
+        if p[1][1] != ':' or p[0][0] != 'id':
+            raise Refuse('fn %s: parameter %r' % (name, norm_tokens(p)))
+        ps.append((p[0][1], norm_tokens(p[2:])))
+    return selfk, ps, ret
+
+
+def self_field(e, field=None):
+    """e is `self.<field>` -> field name"""
+    if e[0] == 'field' and e[1] == ('path', ['self']) and (field is None or e[2] == field):
+        return e[2]
+    return None
+
+
+def self_index(e, field):
+    """e is `self.<field>[k]` -> k"""
+    if e[0] == 'index' and self_field(e[1], field):
+        return e[2]
+    return None
+
+
+class Body:
+    """translation of one method body; every unrecognised form raises Refuse"""
+
+    def __init__(self, name, kind, done):
+        self.name, self.kind, self.done = name, kind, done
+        self.nstate = 0
+        self.ntmp = 0
+
+    def refuse(self, what, e=None):
+        raise Refuse('%s: unrecognised %s%s' % (self.name, what, '' if e is None else ': %r' % (e,)))
+
+    def new_state(self):
+        if self.kind != 'mut':
+            self.refuse('state change in a &self method')
+        self.nstate += 1
+        return 't%d' % self.nstate
+
+    def tmp(self, base):
+        self.ntmp += 1
+        return '%s%d' % (base, self.ntmp)
+
+    # ---- pure expressions
+    def var(self, e, env, ty):
+        if e[0] == 'path' and len(e[1]) == 1 and e[1][0] in env and env[e[1][0]][1] == ty:
+            return env[e[1][0]][0]
+        return None
+
+    def key(self, e, env):
+        """NodeId / DefaultKey valued: x, x.into(), (*x).into(), *x, NodeId::from(x)"""
+        if e[0] == 'mcall' and e[2] == 'into' and e[3] == []:
+            return self.key(e[1], env)
+        if e[0] == 'un' and e[1] == '*':
+            return self.key(e[2], env)
+        if e[0] == 'call' and e[1] == ('path', ['NodeId', 'from']) and len(e[2]) == 1:
+            return self.key(e[2][0], env)
+        v = self.var(e, env, 'key')
+        if v is None:
+            self.refuse('NodeId expression', e)
+        return v
+
+    def usize(self, e, env):
+        v = self.var(e, env, 'N')
+        if v is None:
+            self.refuse('usize expression', e)
+        return v
+
+    def optkey(self, e, env):
+        if e == ('path', ['None']):
+            return 'None'
+        if e[0] == 'call' and e[1] == ('path', ['Some']) and len(e[2]) == 1:
+            return '(Some %s)' % self.key(e[2][0], env)
+        self.refuse('Option<NodeId> expression', e)
+
+    def vec(self, e, env):
+        """slice / Vec valued: xs, xs.iter().copied(), xs.iter().copied().collect()"""
+        if e[0] == 'mcall' and e[2] == 'collect' and e[3] == []:
+            return self.vec(e[1], env)
+        if e[0] == 'mcall' and e[2] == 'copied' and e[3] == [] and e[1][0] == 'mcall' and e[1][2] == 'iter' and e[1][3] == []:
+            return self.vec(e[1][1], env)
+        if e[0] == 'call' and e[1] == ('path', ['new_vec_with_capacity']) and e[2] == [('lit', '0')]:
+            return '[]'
+        v = self.var(e, env, 'vec')
+        if v is None:
+            self.refuse('Vec<NodeId> expression', e)
+        return v
+
+    def children_place(self, e, env):
+        """`self.children[k]` or a `&mut self.children[k]` alias -> k"""
+        k = self_index(e, 'children')
+        if k is not None:
+            return self.key(k, env)
+        v = self.var(e, env, 'place')
+        if v is None:
+            self.refuse('place expression', e)
+        return v
+
+    def ret(self, s, r):
+        return 'Ok (%s, %s)' % (s, r) if self.kind == 'mut' else 'Ok %s' % r
+
+    # ---- results (tail expression / return)
+    def result(self, e, env, s):
+        if e[0] == 'call' and e[1] == ('path', ['Err']) and len(e[2]) == 1:
+            st = e[2][0]
+            if st[0] == 'struct' and st[1] == ['TaffyError', 'ChildIndexOutOfBounds'] and st[3] is None \
+                    and [f for f, _ in st[2]] == ['parent', 'child_index', 'child_count']:
+                a = dict(st[2])
+                return self.ret(s, '(RErr %s %s %s)' % (self.key(a['parent'], env), self.usize(a['child_index'], env),
+                                                        self.usize(a['child_count'], env)))
+            self.refuse('error value', e)
+        if e[0] == 'call' and e[1] == ('path', ['Ok']) and len(e[2]) == 1:
+            x = e[2][0]
+            if x == ('tuple', []):
+                return self.ret(s, 'RUnit')
+            if self.kind == 'q_vec' and x[0] == 'mcall' and x[2] == 'clone' and x[3] == [] and self_index(x[1], 'children') is not None:
+                l = self.tmp('l')
+                return '%s <- sm_index (t_children %s) %s ;;\nOk %s' % (l, s, self.key(self_index(x[1], 'children'), env), l)
+            if x[0] == 'index' and self_index(x[1], 'children') is not None:      # self.children[k][i]
+                l, c = self.tmp('l'), self.tmp('c')
+                return '%s <- sm_index (t_children %s) %s ;;\n%s <- of_opt (nth_error %s (N.to_nat %s)) ;;\n%s' % (
+                    l, s, self.key(self_index(x[1], 'children'), env), c, l, self.usize(x[2], env), self.ret(s, '(RKey %s)' % c))
+            return self.ret(s, '(RKey %s)' % self.key(x, env))
+        if self.kind == 'q_opt' and self_index(e, 'parents') is not None:
+            return 'sm_index (t_parents %s) %s' % (s, self.key(self_index(e, 'parents'), env))
+        if self.kind == 'q_usize' and e[0] == 'mcall' and e[2] == 'len' and e[3] == [] and self_index(e[1], 'children') is not None:
+            l = self.tmp('l')
+            return '%s <- sm_index (t_children %s) %s ;;\nOk (N.of_nat (length %s))' % (l, s, self.key(self_index(e[1], 'children'), env), l)
+        if self.kind == 'mut' and e[0] == 'mcall' and e[1] == ('path', ['self']) and e[2] == 'remove_child_at_index' \
+                and 'remove_child_at_index' in self.done and len(e[3]) == 2:
+            return 'gen_remove_child_at_index %s %s %s' % (s, self.key(e[3][0], env), self.usize(e[3][1], env))
+        self.refuse('result expression', e)
+
+    # ---- statements
+    def seq(self, stmts, tail, env, s, end, top):
+        """stmts then tail; `end(env, s)` gives the text that follows.  top: the method's own block (its tail is the result and
+        `return Err(..)` is allowed)"""
+        if not stmts:
+            if top:
+                if tail is None:
+                    self.refuse('method without a result expression')
+                return self.result(tail, env, s)
+            if tail is not None:
+                return self.stmt(('expr', tail, []), env, s, end, False)
+            return end(env, s)
+        return self.stmt(stmts[0], env, s, lambda env2, s2: self.seq(stmts[1:], tail, env2, s2, end, top), top)
+
+    def nested(self, block, env, s0):
+        """a block as a function body `res tree` starting in state s0"""
+        if block[0] != 'block' or block[3] != []:
+            self.refuse('block', block)
+        return self.seq(block[1], block[2], env, s0, lambda env2, s2: 'Ok %s' % s2, False)
+
+    def loop(self, var_pat, items, block, env, s, k):
+        if var_pat[0] != 'pident':
+            self.refuse('loop pattern', var_pat)
+        x = 'v_' + var_pat[1]
+        env2 = dict(env)
+        env2[var_pat[1]] = (x, 'key')
+        self.nstate += 1
+        sb = 't%d' % self.nstate
+        body = self.nested(block, env2, sb)
+        s2 = self.new_state()
+        return '%s <- st_for %s (fun %s %s =>\n%s) %s ;;\n%s' % (s2, items, sb, x, indent(body), s, k(env, s2))
+
+    def stmt(self, st, env, s, k, top):
+        if st[0] == 'let' and st[3] == []:
+            return self.let(st[1], st[2], env, s, k)
+        if st[0] != 'expr' or st[2] != []:
+            self.refuse('statement', st)
+        e = st[1]
+        # if a > b { return Err(..); }
+        if e[0] == 'if' and e[3] is None:
+            if not top:
+                self.refuse('early return inside a nested block', e)
+            c, blk = e[1], e[2]
+            if not (blk[0] == 'block' and blk[2] is None and len(blk[1]) == 1 and blk[1][0][0] == 'expr' and blk[1][0][1][0] == 'return'
+                    and blk[1][0][1][1] is not None):
+                self.refuse('if statement', e)
+            if c[0] != 'bin' or c[1] not in ('>', '>='):
+                self.refuse('condition', c)
+            a, b = self.usize(c[2], env), self.usize(c[3], env)
+            cond = 'N.ltb %s %s' % (b, a) if c[1] == '>' else 'N.leb %s %s' % (b, a)
+            return 'if %s then %s\nelse\n%s' % (cond, self.result(blk[1][0][1][1], env, s), k(env, s))
+        # self.parents[k] = v
+        if e[0] == 'assign' and e[1] == '=' and self_index(e[2], 'parents') is not None:
+            s2 = self.new_state()
+            return '%s <- st_set_parent %s %s %s ;;\n%s' % (s2, s, self.key(self_index(e[2], 'parents'), env), self.optkey(e[3], env), k(env, s2))
+        # self.mark_dirty(n)?
+        if e[0] == 'try' and e[1][0] == 'mcall' and e[1][1] == ('path', ['self']) and e[1][2] == 'mark_dirty' and len(e[1][3]) == 1:
+            s2 = self.new_state()
+            return '%s <- st_mark_dirty %s %s ;;\n%s' % (s2, s, self.key(e[1][3][0], env), k(env, s2))
+        # self.remove_child(p, c).unwrap()
+        if e[0] == 'mcall' and e[2] == 'unwrap' and e[3] == [] and e[1][0] == 'mcall' and e[1][1] == ('path', ['self']) \
+                and e[1][2] == 'remove_child' and 'remove_child' in self.done and len(e[1][3]) == 2:
+            x, s2 = self.tmp('x'), self.new_state()
+            return '%s <- gen_remove_child %s %s %s ;;\n%s <- unwrap_ret %s ;;\n%s' % (
+                x, s, self.key(e[1][3][0], env), self.key(e[1][3][1], env), s2, x, k(env, s2))
+        # Vec methods on self.children[k] / an alias of it
+        if e[0] == 'mcall' and e[2] in ('push', 'insert', 'clear'):
+            p = self.children_place(e[1], env)
+            s2 = self.new_state()
+            if e[2] == 'push' and len(e[3]) == 1:
+                return '%s <- st_push_child %s %s %s ;;\n%s' % (s2, s, p, self.key(e[3][0], env), k(env, s2))
+            if e[2] == 'insert' and len(e[3]) == 2:
+                return '%s <- st_insert_child %s %s %s %s ;;\n%s' % (s2, s, p, self.usize(e[3][0], env), self.key(e[3][1], env), k(env, s2))
+            if e[2] == 'clear' and e[3] == []:
+                return '%s <- st_vec_clear %s %s ;;\n%s' % (s2, s, p, k(env, s2))
+            self.refuse('Vec method call', e)
+        # xs.iter().for_each(|x| body)
+        if e[0] == 'mcall' and e[2] == 'for_each' and len(e[3]) == 1 and e[3][0][0] == 'closure' and len(e[3][0][1]) == 1 \
+                and e[1][0] == 'mcall' and e[1][2] == 'iter' and e[1][3] == []:
+            cl = e[3][0]
+            return self.loop(cl[1][0], self.vec(e[1][1], env), ('block', [('expr', cl[2], [])], None, []), env, s, k)
+        # for x in <items> { body }
+        if e[0] == 'for':
+            it = e[2]
+            if it[0] == 'mcall' and it[2] == 'drain' and len(it[3]) == 1:        # self.children[k].drain(range)
+                p = self.children_place(it[1], env)
+                r = self.var(it[3][0], env, 'range')
+                if r is None:
+                    self.refuse('drain argument', it)
+                d, s2 = self.tmp('d'), self.new_state()
+                return '%s <- st_vec_drain %s %s %s_lo %s_hi ;;\nlet %s := fst %s in\n%s' % (
+                    d, s, p, r, r, s2, d, self.loop(e[1], '(snd %s)' % d, e[3], env, s2, k))
+            if it[0] == 'un' and it[1] == '&' and self_index(it[2], 'children') is not None:     # for x in &self.children[k]
+                l = self.tmp('l')
+                return '%s <- sm_index (t_children %s) %s ;;\n%s' % (l, s, self.key(self_index(it[2], 'children'), env),
+                                                                     self.loop(e[1], l, e[3], env, s, k))
+            return self.loop(e[1], self.vec(it, env), e[3], env, s, k)
+        # if let Some(x) = ... { body }   (no else)
+        if e[0] == 'iflet' and e[4] is None and e[1][0] == 'pts' and e[1][1] == ['Some'] and len(e[1][2]) == 1 and e[1][2][0][0] == 'pident':
+            x = e[1][2][0][1]
+            scrut, blk = e[2], e[3]
+            if self_index(scrut, 'parents') is not None:                           # self.parents[k] : Option<NodeId>
+                o = self.tmp('o')
+                env2 = dict(env)
+                env2[x] = ('v_' + x, 'key')
+                body = self.nested(blk, env2, s)
+                s2 = self.new_state()
+                return '%s <- sm_index (t_parents %s) %s ;;\n%s <- match %s with\n  | Some v_%s =>\n%s\n  | None => Ok %s\n  end ;;\n%s' % (
+                    o, s, self.key(self_index(scrut, 'parents'), env), s2, o, x, indent(body, 6), s, k(env, s2))
+            if scrut[0] == 'mcall' and self_field(scrut[1], 'children') and scrut[2] == 'get_mut' and len(scrut[3]) == 1:
+                # { x.retain(|f| *f != n); }
+                b = blk[1]
+                if blk[2] is None and len(b) == 1 and b[0][0] == 'expr' and b[0][1][0] == 'mcall' and b[0][1][1] == ('path', [x]) \
+                        and b[0][1][2] == 'retain' and len(b[0][1][3]) == 1 and b[0][1][3][0][0] == 'closure':
+                    cl = b[0][1][3][0]
+                    if len(cl[1]) == 1 and cl[1][0][0] == 'pident' and cl[2][0] == 'bin' and cl[2][1] == '!=' \
+                            and cl[2][2] == ('un', '*', ('path', [cl[1][0][1]])):
+                        s2 = self.new_state()
+                        return '%s <- st_get_mut_retain_ne %s %s %s ;;\n%s' % (s2, s, self.key(scrut[3][0], env), self.key(cl[2][3], env), k(env, s2))
+                self.refuse('get_mut body', blk)
+            if scrut[0] == 'mcall' and self_field(scrut[1], 'children') and scrut[2] == 'get' and len(scrut[3]) == 1:
+                env2 = dict(env)
+                env2[x] = ('v_' + x, 'vec')
+                body = self.nested(blk, env2, s)
+                s2 = self.new_state()
+                return '%s <- match sm_get (t_children %s) %s with\n  | Some v_%s =>\n%s\n  | None => Ok %s\n  end ;;\n%s' % (
+                    s2, s, self.key(scrut[3][0], env), x, indent(body, 6), s, k(env, s2))
+            self.refuse('if-let scrutinee', scrut)
+        self.refuse('statement', st)
+
+    def let(self, pat, e, env, s, k):
+        if pat == ('pwild',):
+            # let _ = self.<map>.remove(key) / self.<map>.insert(v)
+            if e[0] == 'mcall' and self_field(e[1]) in ('children', 'parents', 'nodes') and len(e[3]) == 1:
+                f = self_field(e[1])
+                s2 = self.new_state()
+                if e[2] == 'remove':
+                    return 'let %s := st_remove_%s %s %s in\n%s' % (s2, f, s, self.key(e[3][0], env), k(env, s2))
+                if e[2] == 'insert' and f == 'children':
+                    return 'let %s := st_insert_children %s %s in\n%s' % (s2, s, self.vec(e[3][0], env), k(env, s2))
+                if e[2] == 'insert' and f == 'parents':
+                    return 'let %s := st_insert_parents %s %s in\n%s' % (s2, s, self.optkey(e[3][0], env), k(env, s2))
+            self.refuse('let _', e)
+        if pat[0] != 'pident':
+            self.refuse('let pattern', pat)
+        x = pat[1]
+        v = 'v_' + x
+        env2 = dict(env)
+        # let x = self.children[k].len()   (or through a `&mut self.children[k]` alias)
+        if e[0] == 'mcall' and e[2] == 'len' and e[3] == [] and (self_index(e[1], 'children') is not None or self.var(e[1], env, 'place')):
+            l = self.tmp('l')
+            env2[x] = (v, 'N')
+            return '%s <- sm_index (t_children %s) %s ;;\nlet %s := N.of_nat (length %s) in\n%s' % (
+                l, s, self.children_place(e[1], env), v, l, k(env2, s))
+        # let x = self.children[k].remove(i)
+        if e[0] == 'mcall' and e[2] == 'remove' and len(e[3]) == 1 and self_index(e[1], 'children') is not None:
+            r, s2 = self.tmp('r'), self.new_state()
+            env2[x] = (v, 'key')
+            return '%s <- st_vec_remove %s %s %s ;;\nlet %s := fst %s in\nlet %s := snd %s in\n%s' % (
+                r, s, self.key(self_index(e[1], 'children'), env), self.usize(e[3][0], env), s2, r, v, r, k(env2, s2))
+        # let x = core::mem::replace(&mut self.children[k][i], c)
+        if e[0] == 'call' and e[1] == ('path', ['core', 'mem', 'replace']) and len(e[2]) == 2 and e[2][0][0] == 'un' and e[2][0][1] == '&' \
+                and e[2][0][2][0] == 'index' and self_index(e[2][0][2][1], 'children') is not None:
+            r, s2 = self.tmp('r'), self.new_state()
+            env2[x] = (v, 'key')
+            return '%s <- st_vec_replace %s %s %s %s ;;\nlet %s := fst %s in\nlet %s := snd %s in\n%s' % (
+                r, s, self.key(self_index(e[2][0][2][1], 'children'), env), self.usize(e[2][0][2][2], env), self.key(e[2][1], env),
+                s2, r, v, r, k(env2, s2))
+        # let x = self.children[k].iter().position(|n| *n == c).unwrap()
+        if e[0] == 'mcall' and e[2] == 'unwrap' and e[3] == [] and e[1][0] == 'mcall' and e[1][2] == 'position' and len(e[1][3]) == 1 \
+                and e[1][1][0] == 'mcall' and e[1][1][2] == 'iter' and e[1][1][3] == [] and self_index(e[1][1][1], 'children') is not None:
+            cl = e[1][3][0]
+            if cl[0] == 'closure' and len(cl[1]) == 1 and cl[1][0][0] == 'pident' and cl[2][0] == 'bin' and cl[2][1] == '==' \
+                    and cl[2][2] == ('un', '*', ('path', [cl[1][0][1]])):
+                l = self.tmp('l')
+                env2[x] = (v, 'N')
+                return '%s <- sm_index (t_children %s) %s ;;\n%s <- of_opt (position_N %s %s) ;;\n%s' % (
+                    l, s, self.key(self_index(e[1][1][1], 'children'), env), v, self.key(cl[2][3], env), l, k(env2, s))
+            self.refuse('position closure', cl)
+        # let x = &mut self.children[k]     (alias of the place; IndexMut panics on a dead key)
+        if e[0] == 'un' and e[1] == '&' and self_index(e[2], 'children') is not None:
+            kk = self.key(self_index(e[2], 'children'), env)
+            env2[x] = (kk, 'place')
+            return '_ <- sm_index (t_children %s) %s ;;\n%s' % (s, kk, k(env2, s))
+        # let x = self.nodes.insert(NodeData::new(style))   (possibly wrapped in NodeId::from)
+        ins = e
+        if ins[0] == 'call' and ins[1] == ('path', ['NodeId', 'from']) and len(ins[2]) == 1:
+            ins = ins[2][0]
+        if ins[0] == 'mcall' and self_field(ins[1], 'nodes') and ins[2] == 'insert' and len(ins[3]) == 1:
+            a = ins[3][0]
+            if a[0] == 'call' and a[1] == ('path', ['NodeData', 'new']) and len(a[2]) == 1 and self.var(a[2][0], env, 'style') is not None:
+                r, s2 = self.tmp('r'), self.new_state()
+                env2[x] = (v, 'key')
+                return 'let %s := st_insert_nodes %s false in\nlet %s := fst %s in\nlet %s := snd %s in\n%s' % (r, s, s2, r, v, r, k(env2, s2))
+            self.refuse('nodes.insert argument', a)
+        # let x = y.into()
+        env2[x] = (v, 'key')
+        return 'let %s := %s in\n%s' % (v, self.key(e, env), k(env2, s))
+
+
+def indent(text, n=2):
+    return '\n'.join(' ' * n + l for l in text.split('\n'))
+
+
+def translate_method(name, kind, want_ret, toks, start, done):
+    selfk, ps, ret = fn_signature(toks, name, start)
+    if (selfk == '& mut self') != (kind == 'mut'):
+        raise Refuse('%s: receiver %r' % (name, selfk))
+    if ret != want_ret:
+        raise Refuse('%s: return type %r (expected %r)' % (name, ret, want_ret))
+    _, fb, _ = find_fn(toks, name, start)
+    blk = parse_block(fb)
+    if blk[0] != 'block' or blk[3] != []:
+        raise Refuse('%s: body' % name)
+    env, binders = {}, []
+    for p, ty in ps:
+        if ty not in PARAM_TYPES:
+            raise Refuse('%s: parameter type %r' % (name, ty))
+        t, ct = PARAM_TYPES[ty]
+        env[p] = ('v_' + p, t)
+        if t == 'range':
+            binders.append('(v_%s_lo v_%s_hi : N)' % (p, p))
+        elif ct is not None:
+            binders.append('(v_%s : %s)' % (p, ct))
+    b = Body(name, kind, done)
+    text = b.seq(blk[1], blk[2], env, 't0', None, True)
+    return 'Definition gen_%s (t0 : tree) %s: %s :=\n%s.' % (name, ''.join(x + ' ' for x in binders), RESULT_TYPE[kind], indent(text))
+
+
+def generate_bodies(repo):
+    src = open(repo + '/' + SRC).read()
+    toks = tokenize(src)
+    idxs = [i for i in range(len(toks)) if seq_at(toks, i, ['impl', '<', 'NodeContext', '>', 'TaffyTree', '<', 'NodeContext', '>', '{'])]
+    ti = [i for i in range(len(toks)) if seq_at(toks, i, ['TraversePartialTree', 'for', 'TaffyTree', '<', 'NodeContext', '>'])]
+    if len(idxs) != 1 or len(ti) != 1:
+        raise Refuse('impl blocks of TaffyTree not found')
+    b = idxs[0] + 8
+    inherent = toks[b:match_brace(toks, b) + 1]
+    out = ['(* GENERATED on every run by /verif/translator/gen_tree.py from %s -- do not edit. *)' % SRC,
+           '(* The bodies of the structural methods of TaffyTree in the target language of Model/TreeImp.v;',
+           '   proved equal to the hand-written Model/Tree.v in Proofs/TreeBodiesProofs.v. *)',
+           'From Coq Require Import NArith List Bool Arith.', 'From TV Require Import Model.Tree Model.TreeImp.',
+           'Import ListNotations.', '']
+    done = []
+    for name, kind, ret in BODIES:
+        if name == 'child_count':
+            out.append(translate_method(name, kind, ret, toks, ti[0], done))
+        else:
+            out.append(translate_method(name, kind, ret, inherent, 0, done))
+        out.append('')
+        done.append(name)
+    return '\n'.join(out), {}
+
+
+TARGETS = {'TreeMethodsGen.v': generate, 'TreeBodiesGen.v': generate_bodies}
